@@ -41,12 +41,33 @@ def run(ctx):
   ctx.check(ok, 'C15.known-first', con, 'the list / boolean decision is reached only for names that are not known: a known configurable is never skipped',
             'a skip decision (`%s`) can be taken before / without the known-name test: bindings of known configurables could be dropped'
             % [u(n.ast.value) for n in others if ('c', kt, False) not in facts[n.id]][:1], ss.loc(), instance='known')
-  lists = [n for n in others if any(fct[0] == 'c' and fct[2] is True and fct[1].startswith('isinstance(skip_unknown') for fct in facts[n.id])]
-  okl = bool(lists) and all(u(n.ast.value).replace(' ', '') == '%sin%s' % (ss.params[0], ss.params[1]) for n in lists)
+  # after validation the option is a bool or a list/tuple/set: either type test, either way round, separates the two decisions
+  def type_facts(n):
+    is_bool = is_coll = None
+    for fct in facts[n.id]:
+      if fct[0] != 'c' or not fct[1].replace(' ', '').startswith('isinstance(%s,' % ss.params[1]):
+        continue
+      arg = fct[1].replace(' ', '')[len('isinstance(%s,' % ss.params[1]):-1]
+      names = set(arg.strip('()').split(',')) - {''}
+      if names == {'bool'}:
+        is_bool = fct[2]
+      elif names and names <= {'list', 'tuple', 'set', 'frozenset'}:
+        is_coll = fct[2]
+    return is_bool, is_coll
+  member = '%sin%s' % (ss.params[0], ss.params[1])
+  lists = [n for n in others if u(n.ast.value).replace(' ', '') == member]
+  bools = [n for n in others if u(n.ast.value) == ss.params[1]]
+  odd = [n for n in others if n not in lists and n not in bools]
+  def as_coll(n):
+    b, c = type_facts(n)
+    return (c is True or b is False) and b is not True
+  def as_bool(n):
+    b, c = type_facts(n)
+    return (b is True or c is False) and c is not True
+  okl = bool(lists) and not odd and all(as_coll(n) for n in lists)
   ctx.check(okl, 'C15.known-first', con, 'with a list, an unknown name is skipped iff it is listed',
             'list-valued skip_unknown is no longer a membership test of the selector', ss.loc(), instance='list')
-  bools = [n for n in others if n not in lists]
-  ctx.check(bool(bools) and all(u(n.ast.value) == ss.params[1] for n in bools), 'C15.known-first', con, 'with a boolean, the flag decides for unknown names',
+  ctx.check(bool(bools) and not odd and all(as_bool(n) for n in bools), 'C15.known-first', con, 'with a boolean, the flag decides for unknown names',
             'boolean skip_unknown is no longer returned as is', ss.loc(), instance='bool')
   val = [n for n in g.live_nodes() if any(prog.resolve_call(ss, c) == 'config._validate_skip_unknown' for c in calls_of_node(n))]
   okv = bool(val)
